@@ -61,6 +61,7 @@ type FuncContract struct {
 	Trusted     bool
 	Safety      bool
 	NoVerify    bool // contract is assumed for the body too (trusted)
+	Callback    string // name of a function-typed parameter that the callee invokes any number of times
 	Ghost       []GhostUpdate
 	Line        int
 }
@@ -101,7 +102,7 @@ type Contracts struct {
 	Errors []string
 }
 
-var keywordRe = regexp.MustCompile(`^(ghost|spec|func|interface|requires|ensures|modifies|loop|before|after|on|forbid|inline|pure|stable|trusted|safety|noverify)\b`)
+var keywordRe = regexp.MustCompile(`^(callback|ghost|spec|func|interface|requires|ensures|modifies|loop|before|after|on|forbid|inline|pure|stable|trusted|safety|noverify)\b`)
 var labelRe = regexp.MustCompile(`^([A-Za-z][A-Za-z0-9_-]*):\s+(.*)$`)
 
 // ppImplies rewrites "a ==> b" to implies(a, b) and "a <==> b" to iff(a, b).
@@ -460,6 +461,8 @@ func (c *Contracts) loadContractFile(path, pkgPath string) {
 				pat := c.parsePattern(f[0], body, pos)
 				cur.Calls = append(cur.Calls, CallAssert{When: "before", Pattern: pat, Forbid: true,
 					Clause: Clause{Label: label, Src: "false", Expr: ast.NewIdent("false"), Pos: pos}})
+			case "callback":
+				cur.Callback = strings.TrimSpace(rest)
 			case "on":
 				// on return assert label: expr
 				i := strings.Index(rest, "assert ")
